@@ -407,4 +407,7 @@ def build_matrix(spec):  # noqa: F811  (adds the boundary-only pattern)
 PARTS = [
     Part("files", oracle, strategy=files, quick=(16, 60), thorough=(16, 4000)),
     Part("boundary", oracle, enum=boundary, quick=(16, None), thorough=(16, None), exhaustive=True),
+    # coverage-guided (atheris / libFuzzer) tier over the same strategy and oracle
+    Part("fuzz_files", oracle, strategy=files, quick=(2, 250), thorough=(8, 20000),
+         fuzz=dict(modules=["pyyeti.nastran.op4"], time=30, time_thorough=400), tmax_thorough=600),
 ]
